@@ -6,7 +6,7 @@ ASSUMPTIONS = ["each constituent is a strictly increasing stream honouring the e
                "malloc does not fail"]
 def ob(name, ns, ne, nops, **kw):
     o = dict(name=name, src='h_mux.c', defs=['NS=%d' % ns, 'NE=%d' % ne, 'NOPS=%d' % nops], units=['src/instant.c'],
-             incl=['src/evstrm.c'], replay_units='all', unwind=max(ns * ne, nops) + 2, solver='cadical', timeout=900, mem_gb=10,
+             incl=['src/evstrm.c'], replay_units='all', unwind=max(ns * ne, nops) + 2, solver='minisat', slice_formula=True, timeout=800, mem_gb=6,
              checks=['--bounds-check', '--pointer-check'],
              restrict_fp={'echs_evstrm_pop.function_pointer_call.1': ['arr_next'], 'echs_evstrm_next.function_pointer_call.1': ['arr_next'],
                           'free_echs_evstrm.function_pointer_call.1': ['arr_free']},
